@@ -96,13 +96,14 @@ fn c19_elevation_map_le32() {
 
 /// A chunk identifier "20240813-123330-DDD-T" with symbolic digits and type letter.
 pub fn chunk_id(d: [u8; 3], letter: u8, v: usize, t: Option<DateTime<Utc>>) -> ChunkIdentifier {
-    let mut name = String::with_capacity(21);
-    name.push_str("20240813-123330-");
-    name.push(d[0] as char);
-    name.push(d[1] as char);
-    name.push(d[2] as char);
-    name.push('-');
-    name.push(letter as char);
+    // built from bytes (all ASCII by the callers' assumptions) so that the length stays concrete:
+    // String::push(char) would branch on the UTF-8 width of every symbolic character
+    let mut b = *b"20240813-123330-000-I";
+    b[16] = d[0];
+    b[17] = d[1];
+    b[18] = d[2];
+    b[20] = letter;
+    let name = unsafe { String::from_utf8_unchecked(b.to_vec()) };
     ChunkIdentifier::new(String::from("KTLX"), VolumeIndex::new(v), name, t)
 }
 
@@ -135,35 +136,50 @@ fn vcp(cuts: Vec<ElevationDataBlock>) -> Message {
     }
 }
 
+/// ChunkIdentifier::sequence replaced by "whatever the harness chose": any usize or none.  That
+/// over-approximates every possible chunk name; the parser itself is decided in C16 (c16_parse).
+static mut STUB_SEQ: Option<usize> = None;
+pub fn stub_sequence(_id: &ChunkIdentifier) -> Option<usize> {
+    unsafe { STUB_SEQ }
+}
+
 /// Estimate without history: none outside 1..=55 or past the last cut; +10 s after an end chunk;
 /// otherwise + 11 s (contiguous surveillance), 7 s (constant phase), 4 s otherwise.
 #[kani::proof]
-#[kani::unwind(24)]
+#[kani::unwind(8)]
 #[kani::stub(alloc::fmt::format, crate::stubs::fmt_format)]
+#[kani::stub(nexrad_data::aws::realtime::ChunkIdentifier::sequence, stub_sequence)]
 fn c19_estimate_default() {
-    let (d, seq) = any_digits();
+    let seq_opt: Option<usize> = kani::any();
+    unsafe {
+        STUB_SEQ = seq_opt;
+    }
     let secs: i64 = kani::any();
     kani::assume(secs >= 0 && secs <= 4_102_444_800); // 1970..2100
     let t = match DateTime::from_timestamp(secs, 0) {
         Some(t) => t,
         None => panic!("harness: timestamp"),
     };
-    let prev = chunk_id(d, b'I', 5, Some(t));
+    let prev = chunk_id([b'0', b'0', b'7'], b'I', 5, Some(t));
     // two cuts: first 3 chunks (2..=4), second 6 chunks (5..=10); waveform/channel symbolic
     let w: [u8; 2] = kani::any();
     let c: [u8; 2] = kani::any();
     let msg = vcp(vec![cut(0, w[0], c[0]), cut(1, w[1], c[1])]);
     let got = estimate_next_chunk_time(&prev, &msg, None);
-    let next = seq + 1;
-    let want_secs: Option<i64> = if seq < 1 || seq > 55 {
-        None
-    } else if seq == 55 {
-        Some(10)
-    } else if next > 10 {
-        None
-    } else {
-        let k = if next <= 4 { 0 } else { 1 };
-        Some(if w[k] == 1 { 11 } else if c[k] == 0 { 7 } else { 4 })
+    let want_secs: Option<i64> = match seq_opt {
+        None => None,
+        Some(seq) => {
+            if seq < 1 || seq > 55 {
+                None
+            } else if seq == 55 {
+                Some(10)
+            } else if seq + 1 > 10 {
+                None
+            } else {
+                let k = if seq + 1 <= 4 { 0 } else { 1 };
+                Some(if w[k] == 1 { 11 } else if c[k] == 0 { 7 } else { 4 })
+            }
+        }
     };
     match (got, want_secs) {
         (None, None) => {}
@@ -174,11 +190,12 @@ fn c19_estimate_default() {
         (Some(_), None) => panic!("C19: estimate given where none is expected"),
         (None, Some(_)) => panic!("C19: no estimate where one is expected"),
     }
-    wit!(seq == 55 && got.is_some());
-    wit!(seq == 4 && w[1] == 1);
-    wit!(seq == 9 && w[1] != 1 && c[1] == 0);
-    wit!(seq == 10 && got.is_none());
-    wit!(seq == 0);
+    wit!(seq_opt == Some(55) && got.is_some());
+    wit!(seq_opt == Some(4) && w[1] == 1);
+    wit!(seq_opt == Some(9) && w[1] != 1 && c[1] == 0);
+    wit!(seq_opt == Some(10) && got.is_none());
+    wit!(seq_opt == Some(0));
+    wit!(seq_opt.is_none());
     core::mem::forget((prev, msg));
 }
 
